@@ -33,12 +33,13 @@ def mc_configs(tier):
     c.append(("slow2_live", dict(BASE, N=2, Slow=True), [], ["Independent"], "FairSpec", False, ["C17"]))
     c.append(("watch2", dict(BASE, N=2, Watch=True, MaxChanges=2, Inherit=True), SAFETY, [], "Spec", False, ["C01", "C06"]))
     c.append(("cap2", dict(BASE, N=2, CapInbox=1), SAFETY, [], "Spec", True, ["C04", "C10"]))
+    c.append(("watch2_fail", dict(BASE, N=2, Watch=True, MaxChanges=1, Inherit=True, Failures=True), SAFETY, [], "Spec", False, ["C06", "C07", "C01"]))
     if tier == "thorough":
         c.append(("once3_fail", dict(BASE, Failures=True), SAFETY, [], "Spec", True, ["C07", "C01", "C04"]))
         c.append(("once3_skip", dict(BASE, Skips=True), SAFETY, [], "Spec", True, ["C01", "C08"]))
         c.append(("once3_sig", dict(BASE, Signals=True), SAFETY, [], "Spec", True, ["C10", "C11"]))
         c.append(("once3_live", dict(BASE), [], ["Terminates"], "FairSpec", False, ["C04"]))
-        c.append(("watch2_c3", dict(BASE, N=2, Watch=True, MaxChanges=3, Inherit=True, Failures=True), SAFETY, [], "Spec", False, ["C06", "C01", "C07"]))
+        c.append(("watch2_fail2", dict(BASE, N=2, Watch=True, MaxChanges=2, Inherit=True, Failures=True), SAFETY, [], "Spec", False, ["C06", "C01", "C07"]))
         c.append(("watch2_live", dict(BASE, N=2, Watch=True, MaxChanges=2, Inherit=True), [], ["Converges"], "FairSpec",
                   False, ["C06"]))
         c.append(("cap3", dict(BASE, CapInbox=1), SAFETY, [], "Spec", True, ["C04", "C10"]))
